@@ -38,6 +38,7 @@ type cfg struct {
 	LB        gnet.LoadBalancing
 	Ticker    bool
 	Client    bool // gnet is the client side (Client.Dial/Enroll); the harness listens
+	Rotate    bool // start with gnet.Rotate and a second listener of another network
 }
 
 func (c cfg) String() string {
@@ -184,6 +185,10 @@ type engineLife struct {
 	runErr   error
 	retSeq   int64 // seq at which Run returned
 	udpAddr  net.Addr
+	// second listener (Rotate)
+	addr2, dial2Net, dial2Addr string
+	// a duplicate of the (first) listener obtained with Engine.Dup/DupListener and kept by the "user" for the whole life
+	keptDup int
 }
 
 // startServer starts gnet.Run with the monitor as handler and waits until it serves.
@@ -200,10 +205,34 @@ func startServer(c cfg, mon *monitor) (*engineLife, error) {
 }
 
 func startServerOnce(c cfg, mon *monitor) (*engineLife, error) {
-	el := &engineLife{cfg: c, mon: mon, addr: c.listenAddr(), booted: make(chan struct{}), done: make(chan struct{})}
+	el := &engineLife{cfg: c, mon: mon, addr: c.listenAddr(), booted: make(chan struct{}), done: make(chan struct{}), keptDup: -1}
 	mon.life = el
+	split := func(a string) (string, string) { // "tcp://127.0.0.1:80" -> ("tcp", "127.0.0.1:80")
+		i := strings.Index(a, "://")
+		n := a[:i]
+		if n == "tcp6" || n == "tcp4" {
+			return n, a[i+3:]
+		}
+		return n, a[i+3:]
+	}
+	el.dialNet, el.dialAddr = split(el.addr)
+	if c.Rotate {
+		c2 := c
+		if c.Net == "unix" {
+			c2.Net = "tcp"
+		} else {
+			c2.Net = "unix"
+		}
+		el.addr2 = c2.listenAddr()
+		el.dial2Net, el.dial2Addr = split(el.addr2)
+	}
 	go func() {
-		err := gnet.Run(mon, el.addr, c.options()...)
+		var err error
+		if c.Rotate {
+			err = gnet.Rotate(mon, []string{el.addr, el.addr2}, c.options()...)
+		} else {
+			err = gnet.Run(mon, el.addr, c.options()...)
+		}
 		el.runErr = err
 		el.retSeq = vsys.Seq()
 		mon.noteRunReturned(el.retSeq)
@@ -216,40 +245,65 @@ func startServerOnce(c cfg, mon *monitor) (*engineLife, error) {
 	case <-time.After(10 * time.Second):
 		return el, fmt.Errorf("OnBoot not seen within 10s")
 	}
-	// discover the bound address through Engine.Dup + getsockname (retry while the engine starts)
-	if strings.HasPrefix(c.Net, "unix") {
-		el.dialNet, el.dialAddr = "unix", strings.TrimPrefix(el.addr, "unix://")
-		// the listener was bound and listening before OnBoot ran: no probing connection is needed
-		return el, nil
-	}
+	// The listeners were bound and listening before OnBoot ran. A duplicate of the first listener is taken the way a
+	// user would (Dup with one listener, DupListener with several) and kept until after Run returned: it is the
+	// user's descriptor and the framework must never close it.
 	var lastErr error
-	for i := 0; i < 5000; i++ {
-		fd, err := el.eng.Dup()
+	for i := 0; i < 3000; i++ {
+		var fd int
+		var err error
+		if c.Rotate {
+			ln, la := el.dialNet, el.dialAddr
+			if ln == "tcp6" || ln == "tcp4" {
+				ln = "tcp"
+			}
+			fd, err = el.eng.DupListener(ln, la)
+		} else {
+			fd, err = el.eng.Dup()
+		}
 		if err != nil {
 			lastErr = err
 			time.Sleep(time.Millisecond)
 			continue
 		}
 		vsys.Disown(fd, "Engine.Dup")
-		sa, err := unix.Getsockname(fd)
-		vsys.ForeignDel(fd)
-		_ = unix.Close(fd)
-		if err != nil {
-			return el, err
-		}
-		switch a := sa.(type) {
-		case *unix.SockaddrInet4:
-			el.dialAddr = fmt.Sprintf("127.0.0.1:%d", a.Port)
-		case *unix.SockaddrInet6:
-			el.dialAddr = fmt.Sprintf("[::1]:%d", a.Port)
-		}
-		el.dialNet = c.Net
-		if c.Net == "tcp6" {
-			el.dialNet = "tcp6"
+		el.keptDup = fd
+		if sa, err := unix.Getsockname(fd); err == nil {
+			want := el.dialAddr
+			got := ""
+			switch a := sa.(type) {
+			case *unix.SockaddrInet4:
+				got = fmt.Sprintf("127.0.0.1:%d", a.Port)
+			case *unix.SockaddrInet6:
+				got = fmt.Sprintf("[::1]:%d", a.Port)
+			case *unix.SockaddrUnix:
+				got = a.Name
+			}
+			if got != want {
+				res.Violate("C07 Engine.Dup returned a descriptor that is not the listener", fmt.Sprintf("getsockname on the duplicate says %q, the listener is %q", got, want), nil)
+			}
 		}
 		return el, nil
 	}
 	return el, fmt.Errorf("Engine.Dup kept failing: %v", lastErr)
+}
+
+// checkKeptDup verifies, after Run returned, that the duplicate handed to the user is still open and still the
+// listening socket, then closes it.
+func (el *engineLife) checkKeptDup() {
+	if el.keptDup < 0 {
+		return
+	}
+	fd := el.keptDup
+	el.keptDup = -1
+	id := fdIdent(fd)
+	if !strings.HasPrefix(id, "socket:") {
+		res.Violate("C07 descriptor handed to the user (Engine.Dup) was closed by the framework", fmt.Sprintf("after Run returned, fd %d is %q", fd, id), map[string]any{"config": el.cfg.String()})
+	} else if _, err := unix.Getsockname(fd); err != nil {
+		res.Violate("C07 descriptor handed to the user (Engine.Dup) is unusable after shutdown", fmt.Sprintf("getsockname: %v", err), nil)
+	}
+	vsys.ForeignDel(fd)
+	_ = unix.Close(fd)
 }
 
 // stop requests shutdown through Engine.Stop and waits for Run to return. Engine.Stop itself polls the
@@ -266,6 +320,7 @@ func (el *engineLife) stop(timeout time.Duration) error {
 	case <-time.After(timeout):
 		return fmt.Errorf("Run did not return within %v after Stop", timeout)
 	}
+	el.checkKeptDup()
 	select {
 	case err := <-errCh:
 		return err
